@@ -36,7 +36,7 @@ def floors(tier):
     return {"cases": 20000, "cases_with_2plus_errors": 5000, "cases_context_depth2": 500, "invalid_schemas": 2000,
             "proxy_controls_touched": 500, "via_dollar_schema": 2000, "with_format_checker": 2000,
             "best_match_is_descendant": 500, "best_match_is_toplevel": 2000,
-            "reused_validator_sequences": 1000}
+            "reused_validator_sequences": 1000, "root_reference_objects": 500}
 
 
 # ------------------------------------------------------------------ recording proxies
@@ -306,6 +306,14 @@ def run(ctx):
             continue
         if not ok:
             continue
+        if isinstance(schema, dict) and rng.random() < 0.12:
+            # the schema object itself is a reference object with sibling keywords (ignored by every entry point alike)
+            sib = rng.choice([("type", "null"), ("type", "string"), ("enum", ["__never__"]), ("minimum", 10 ** 6), ("maxLength", 0),
+                              ("required", ["__never__"]) if d != 3 else ("maxItems", 0), ("items", {"type": "null"}), ("pattern", "^$")])
+            schema = {"definitions": {"r": schema}, "$ref": "#/definitions/r", sib[0]: sib[1]}
+            if rng.random() < 0.5:
+                schema = dict(reversed(list(schema.items())))
+            ctx.count("root_reference_objects")
         via = isinstance(schema, dict) and rng.random() < 0.35
         if via:
             schema = dict(schema)
